@@ -64,6 +64,13 @@ CLAIMED = {
                      "history of NEW/NEXT/CLOSE/FULL it is proved for every data valuation that evaluate() pulls nothing, that each "
                      "delivered result is the NEXT qualifying element (z3: it qualifies and nothing between the previous result "
                      "and it does) and that the log length is exactly max(previous, position+1); no element is pulled twice."),
+    "C20": dict(design_ref="DESIGN.md 7/C20",
+                text="Bounded exhaustive exploration of IndexedCache driven directly: key lists of <=3 keys (unsorted, duplicated), "
+                     "every sequence of <=3 inserts (<=4 thorough) with each key absent or bound to one of I+1 values "
+                     "(data-independence: the index only hashes/compares values, so I+1 values cover any value domain), "
+                     "overwrites included, int and HashedValue values, then check/retrieve for every lookup and clear(), "
+                     "compared with a list-of-(binding, output) reference. The structure hashes its values, so here the solver "
+                     "enumerates (n-way forks with a closing coverage obligation) rather than generalises."),
 }
 
 NOT_APPLICABLE = {pid: PENDING for pid in ["C%02d" % i for i in range(1, 21)] if pid not in CLAIMED}
